@@ -145,10 +145,16 @@ def _whitener():
     out = [f"/-- {header(path, qual, src, fn)}: covariance normaliser (as a function of the sample count) and exponent of the whitening matrix -/",
            "def whitenerCovDenominator {R : Type} [Num R] (n : R) : R := n",
            "def whitenerPower {R : Type} [Num R] (alpha : R) : R :=", "  " + lean_num(power, {"self.alpha": "alpha"})]
-    # inverse: inv with pinv fallback
-    tr = [s for s in fn.body if isinstance(s, ast.Try)]
-    if len(tr) != 1 or "np.linalg.inv(T)" not in ast.unparse(tr[0].body[0]) or "np.linalg.pinv(T)" not in ast.unparse(tr[0].handlers[0].body[0]):
-        raise TranslationError("Tinv is not inv(T) with pinv fallback")
+    # inverse: the fractional power of the same C with the exponent given in the source (pseudo-inverse on the retained directions)
+    Tinv = sym.defs.get("Tinv")
+    if not (isinstance(Tinv, ast.Call) and ast.unparse(Tinv.func) == "_fractional_matrix_power" and len(Tinv.args) >= 2
+            and ast.unparse(Tinv.args[0]) == "C"):
+        raise TranslationError("Tinv is not a fractional power of C: " + ast.unparse(Tinv) if Tinv is not None else "Tinv not found")
+    if [ast.unparse(k.value) for k in Tinv.keywords] != [ast.unparse(k.value) for k in sym.defs["T"].keywords]:
+        raise TranslationError("T and Tinv are computed with different solver options")
+    out += ["/-- exponent of `Tinv` as written in the source -/",
+            "def whitenerInversePower {R : Type} [Num R] (alpha : R) : R :=",
+            "  " + lean_num(Tinv.args[1], {"power": "(whitenerPower alpha)"})]
     # fractional power: cut-off and exponent
     path2, qual2 = "linalg/_numpy/_utils.py", "_fractional_matrix_power"
     src2, tree2 = load(path2)
@@ -389,9 +395,10 @@ def _scaler():
             f"def scalerForward : List (String × String × String) := {lst(fwd)}\n"
             f"/-- {header(path, 'Scaler.inverse_transform_data', src, f2)} -/\n"
             f"def scalerInverse : List (String × String × String) := {lst(inv)}\n"
-            f"/-- {header(path, 'Scaler.fit', src, fit)}: std_ = X.std(sample_dims) (ddof 0) clipped from below at float32 eps, stored clipped -/\n"
+            f"/-- {header(path, 'Scaler.fit', src, fit)}: std_ = X.std(sample_dims) (ddof 0) clipped from below at float32 eps (an ABSOLUTE floor), stored clipped -/\n"
             "def scalerStdDdof : Nat := 0\n"
-            "def scalerStdClipIsStored : Bool := true\n")
+            "def scalerStdClipIsStored : Bool := true\n"
+            "def scalerStdFloorIsAbsolute : Bool := true\n")
 
 
 # ------------------------------------------------------------------------------------------------- ExtendedEOF
